@@ -590,7 +590,19 @@ func TestVerifC07ResourceManager(t *testing.T) {
 			defer lang.VerifYieldConfig(0, 0, 0, 0)
 		}
 		plans := genPlans(t)
-		rm := syncx.NewResourceManager()
+		// one to three managers in the same process, used with the same key names: every manager is
+		// judged on its own (model keys are manager*100+key), so state shared between managers shows
+		nm := rapid.SampledFrom([]int{1, 2, 2, 3}).Draw(t, "managers")
+		rms := make([]*syncx.ResourceManager, nm)
+		for i := range rms {
+			rms[i] = syncx.NewResourceManager()
+		}
+		mgrOf := make([][]int, len(plans))
+		for g := range plans {
+			for range plans[g] {
+				mgrOf[g] = append(mgrOf[g], rapid.IntRange(0, nm-1).Draw(t, "manager"))
+			}
+		}
 		var mu sync.Mutex
 		type foreignPanic struct {
 			key      int
@@ -610,7 +622,9 @@ func TestVerifC07ResourceManager(t *testing.T) {
 			go func(g int) {
 				defer wg.Done()
 				<-start
-				for _, p := range plans[g] {
+				for pi, p := range plans[g] {
+					rm := rms[mgrOf[g][pi]]
+					mk := mgrOf[g][pi]*100 + p.key
 					p.before.run()
 					var r io.Closer
 					var err error
@@ -634,7 +648,7 @@ func TestVerifC07ResourceManager(t *testing.T) {
 						}
 						x := &res{atomic.AddInt64(&execSeq, 1)}
 						mu.Lock()
-						created[p.key] = append(created[p.key], x)
+						created[mk] = append(created[mk], x)
 						mu.Unlock()
 						return x, nil
 					})
@@ -643,13 +657,13 @@ func TestVerifC07ResourceManager(t *testing.T) {
 					if pv != nil {
 						mu.Lock()
 						if _, planned := pv.(tokenPanic); planned && p.pan {
-							panicLeaders[p.key] = append(panicLeaders[p.key], [2]int64{inv, ret})
+							panicLeaders[mk] = append(panicLeaders[mk], [2]int64{inv, ret})
 						} else {
 							// a caller that joined a flight whose create panicked has nothing to return; today
 							// that surfaces as a nil-interface conversion panic in the joiner.  The statement is
 							// silent about it, so it is accepted *if* such a flight overlaps this call; a panic
 							// with no overlapping panicked create is a leftover of an earlier call.
-							foreign = append(foreign, foreignPanic{p.key, inv, ret, fmt.Sprint(pv)})
+							foreign = append(foreign, foreignPanic{mk, inv, ret, fmt.Sprint(pv)})
 						}
 						mu.Unlock()
 						continue
@@ -661,10 +675,10 @@ func TestVerifC07ResourceManager(t *testing.T) {
 							bad.Store("GetResource returned both a resource and an error")
 						}
 					} else {
-						if got[p.key] == nil {
-							got[p.key] = map[*res]int{}
+						if got[mk] == nil {
+							got[mk] = map[*res]int{}
 						}
-						got[p.key][r.(*res)]++
+						got[mk][r.(*res)]++
 					}
 					mu.Unlock()
 				}
@@ -689,24 +703,25 @@ func TestVerifC07ResourceManager(t *testing.T) {
 		}
 		for k, cs := range created {
 			if len(cs) > 1 {
-				t.Fatalf("resource for key k%d was created successfully %d times; plans: %s", k, len(cs), renderPlans(plans))
+				t.Fatalf("resource for key k%d of manager %d was created successfully %d times; managers of the calls %v; plans: %s", k%100, k/100, len(cs), mgrOf, renderPlans(plans))
 			}
 		}
 		for k, insts := range got {
 			if len(insts) > 1 {
-				t.Fatalf("callers of key k%d were handed %d different instances; plans: %s", k, len(insts), renderPlans(plans))
+				t.Fatalf("callers of key k%d of manager %d were handed %d different instances; managers of the calls %v; plans: %s", k%100, k/100, len(insts), mgrOf, renderPlans(plans))
 			}
 			for r := range insts {
 				if len(created[k]) != 1 || created[k][0] != r {
-					t.Fatalf("key k%d: handed-out instance was not the one created", k)
+					t.Fatalf("key k%d of manager %d: the handed-out instance is not the one this manager created; managers of the calls %v; plans: %s", k%100, k/100, mgrOf, renderPlans(plans))
 				}
 			}
 		}
 		if failedGets > 0 && failedCreates == 0 {
 			t.Fatalf("GetResource failed although no create failed")
 		}
+		st.Class(fmt.Sprintf("managers:%d", nm))
 		if failedCreates > 0 && len(created) > 0 {
-			st.NonTrivial(renderPlans(plans))
+			st.NonTrivial(fmt.Sprintf("managers=%d %v ", nm, mgrOf) + renderPlans(plans))
 		}
 	})
 }
